@@ -849,7 +849,7 @@ public:
 
         auto* f = next(data(), min(pos, size()));
         auto* l = next(data(), min(pos + count, size()));
-        detail::str_replace(f, l, str, next(str, strlen(str)));
+        detail::str_replace(f, l, str, next(str, traits_type::length(str)));
         return *this;
     }
 
@@ -857,7 +857,7 @@ public:
     {
         auto* f = to_mutable_iterator(first);
         auto* l = to_mutable_iterator(last);
-        detail::str_replace(f, l, str, next(str, strlen(str)));
+        detail::str_replace(f, l, str, next(str, traits_type::length(str)));
         return *this;
     }
 
